@@ -86,8 +86,13 @@ let handle cmd =
   | "hfit" -> let n = nint () in let md = z_of_int (nint ()) in let ne = nint () in
     let es = rd_list ne (fun () -> let r = nat_of_int (nint ()) in let c = nat_of_int (nint ()) in
                                      let d = z_of_int (nint ()) in { er = r; ec = c; ed = d }) in
+    let ms = fit_model (nat_of_int n) md es in
+    let cs = clusters_model (nat_of_int n) (List.map (fun m -> (m.m_into, m.m_from)) ms) in
     String.concat " " (List.map (fun m -> string_of_int (int_of_nat m.m_into) ^ "," ^ string_of_int (int_of_nat m.m_from)
-                                           ^ "," ^ string_of_int (int_of_z m.m_dist)) (fit_model (nat_of_int n) md es))
+                                           ^ "," ^ string_of_int (int_of_z m.m_dist)) ms)
+    ^ " | " ^
+    String.concat " " (List.map (fun (k, s) -> string_of_int (int_of_nat k) ^ ":" ^
+                                   String.concat "," (List.map (fun x -> string_of_int (int_of_nat x)) s)) cs)
   | "ed" -> let inner = if nint () = 0 then SqEuclid else AbsDiff in
     let s1 = rd_series () in let s2 = rd_series () in
     string_of_int (int_of_z (ed_model inner s1 s2))
